@@ -675,6 +675,17 @@ V({
     "trusted": ["chalk-ir fold driver", "UniverseMap (abstract; K8)"],
 })
 
+# -------------------------------------------------------------------------- V31
+V({
+    "id": "V31",
+    "title": "inverter_callbacks: Inverter::{interner, forbid_free_vars, forbid_inference_vars} and the PRESENCE of its three placeholder callbacks (chalk-solve/src/infer/invert.rs)",
+    "template": "v31_inverter.rs",
+    "assumptions": [
+        "V31: the bodies of Inverter::fold_free_placeholder_{ty,lifetime,const} use the hash-map entry API with a closure that captures &mut (outside Verus): when they are present NOTHING about them is verified (stated per function in the evidence); when one is absent the trait's default (keeps the placeholder; V16) is what runs, and the contract 'the result is not that placeholder' is checked against it",
+    ],
+    "trusted": ["Inverter's three placeholder callbacks (bodies not verified)"],
+})
+
 # ===========================================================================
 GLOBAL_ASSUMPTIONS = [
     "soundness of rustc+Kani's model of core/alloc and of CBMC; soundness of Verus and Z3",
